@@ -32,7 +32,7 @@ RULE = ('base: all (file, result time, exposed table, printed row, column) cells
         'times, all rows at times > 0, first row at time 0, last row at last time), every cell of every table at every '
         'time re-compared; pair: ordered pairs (A, B) of shipped files, including A = B, both opened and alive, every '
         'time of A then of B read forwards and backwards, every exposed cell compared with the reference and the '
-        'untouched listing compared with its snapshot at every arrival.  Every opened file is read forwards and then backwards; the unperturbed file also with every '
+        'untouched listing compared with its snapshot at every arrival.; primed: files x primers {none, all shipped incon files, a t2data file, a mulgrid file (both with either read function), another simulator\'s listing, all of these}, each in a fresh interpreter, the listing opened after the primer, read forwards and backwards and every exposed cell compared with the reference.  Every opened file is read forwards and then backwards; the unperturbed file also with every '
         'time reached from index 0 by its negative index / last().  A case is one compared cell (base), one (subset, time, table) comparison (skip) or one variant '
         'file (perturbed); non-trivial = it involves at least one printed number (base/skip) or at least one replaced '
         'cell (perturbed); distinct = distinct (file, time, table, row, column) / (file, subset, time, table) / (file, '
@@ -69,6 +69,8 @@ READING_ORDERS = ('base: after opening, index = 1..n-1, then prev() down to the 
                   'opening, index = 1..n-1, then prev() down to the first time; all tables are compared at every arrival')
 BOUNDS['quick']['pairs'] = 'all 36 ordered pairs (incl. the same file twice) of one representative file per simulator directory'
 BOUNDS['thorough']['pairs'] = 'all ordered pairs (incl. the same file twice) of the representatives and all files smaller than 300 kB'
+BOUNDS['quick']['primed'] = 'files with ragged tables and one representative per simulator directory x 6 primers, one fresh process each'
+BOUNDS['thorough']['primed'] = 'all shipped listings x 6 primers, one fresh process each'
 BOUNDS['quick']['reading_orders'] = READING_ORDERS
 BOUNDS['thorough']['reading_orders'] = READING_ORDERS
 LEVEL_NOTE = ('Trusted: ref/listtok.py (structure and tokens) and ref/fortnum.py (values). Only the shipped files and their '
@@ -853,6 +855,113 @@ def table_names(ctx):
     return out
 
 
+# ------------------------------------------------------------------------------------------ order independence
+
+PRIMERS = ['fresh', 'incon', 't2data', 'mulgrid', 'listing', 'all']
+CHILD_MARK = 'C05CHILD '
+CHILD_SECONDS = 900
+
+
+def primer_files(kind, rel):
+    """The files read by the other users of the shared fixed-format readers before the listing is opened."""
+    tests = os.path.join(core.REPO, 'tests')
+    out = []
+    if kind in ('incon', 'all'):
+        root = os.path.join(tests, 'incon')
+        for sim in sorted(os.listdir(root)):
+            for case in sorted(os.listdir(os.path.join(root, sim))):
+                d = os.path.join(root, sim, case)
+                for f in sorted(os.listdir(d)):
+                    if not f.endswith('.npy') and not f.endswith('~'):
+                        out.append(('incon', os.path.join(d, f)))
+    if kind in ('t2data', 'all'):
+        out.append(('t2data', os.path.join(tests, 'data', 'AUTOUGH2', '1', 'case1.dat')))
+    if kind in ('mulgrid', 'all'):
+        out.append(('mulgrid', os.path.join(tests, 'mulgrid', 'g1.dat')))
+    if kind in ('listing', 'all'):
+        sim = rel.split('/')[0]
+        others = sorted((size, r) for r, size in listing_files() if r.split('/')[0] != sim)
+        out.append(('listing', os.path.join(listing_root(), others[0][1])))
+    return out
+
+
+def run_primers(kind, rel):
+    """-> [error texts].  What the primers themselves do is other properties' business; an exception here
+    is only noted."""
+    errors = []
+    for what, path in primer_files(kind, rel):
+        try:
+            with core.timelimit(120), contextlib.redirect_stdout(io.StringIO()):
+                if what == 'incon':
+                    import t2incons
+                    t2incons.t2incon(path)
+                elif what == 't2data':
+                    import t2data
+                    from fixed_format_file import fortran_read_function
+                    t2data.t2data(path)
+                    t2data.t2data(path, read_function=fortran_read_function)
+                elif what == 'mulgrid':
+                    import mulgrids
+                    from fixed_format_file import fortran_read_function
+                    mulgrids.mulgrid(path)
+                    mulgrids.mulgrid(path, read_function=fortran_read_function)
+                else:
+                    import t2listing
+                    lst = t2listing.t2listing(path)
+                    for i in range(lst.num_fulltimes):
+                        lst.index = i
+                    lst.close()
+        except Exception as e:
+            errors.append('%s %s: %s: %s' % (what, os.path.relpath(path, core.REPO), type(e).__name__, str(e)[:100]))
+    return errors
+
+
+def child_main():
+    """Runs in a fresh interpreter: primers first, then the listing is opened for the first time in this
+    process, read forwards and back, and compared with the reference."""
+    import json
+    import sys
+    rel, kind = sys.argv[1], sys.argv[2]
+    core.load_library()
+    errors = run_primers(kind, rel)
+    ctx = Ctx(rel)
+    viol, snap, names = check_base(ctx, None, with_addressing=False, orders=('backward',))
+    cells = int(sum(v[2].size for v in snap.values()))
+    out = {'viol': [(sg, w) for sg, w, c in viol], 'cells': cells, 'tables_at_times': len(snap),
+           'primer_errors': errors}
+    sys.stdout.write(CHILD_MARK + json.dumps(out) + '\n')
+
+
+def check_primed(rel, kind, rec):
+    """One fresh process: primer activity 'kind', then the listing.  -> violations"""
+    import json
+    import subprocess
+    import sys
+    case = {'kind': 'primed', 'file': rel, 'primer': kind}
+    sim = rel.split('/')[0]
+    try:
+        r = subprocess.run([sys.executable, '-c', 'import checks.c05 as m; m.child_main()', rel, kind],
+                           capture_output=True, text=True, timeout=CHILD_SECONDS)
+    except subprocess.TimeoutExpired:
+        return [('C05|base|timeout|%s|after=%s' % (sim, kind), '%s read after primer %s: no result in %d s'
+                 % (rel, kind, CHILD_SECONDS), case)]
+    line = next((l for l in r.stdout.splitlines() if l.startswith(CHILD_MARK)), None)
+    if line is None:
+        raise core.HarnessError('C05 child for %s/%s gave no result (exit %s):\n%s' % (rel, kind, r.returncode, r.stderr[-1500:]))
+    out = json.loads(line[len(CHILD_MARK):])
+    if rec is not None:
+        k0 = core.h64((rel, 'after', kind))
+        rec.bulk(out['cells'], [k0], outcome='cells-compared-after-' + kind)
+        rec.count('cells_compared_after_primers', out['cells'])
+        rec.count('fresh_processes', 1)
+        if out['primer_errors']:
+            rec.count('primer_raised', len(out['primer_errors']))
+            if len(rec.notes) < 3:
+                rec.notes.append('primer raised (not judged here): %s' % out['primer_errors'][0])
+    return [(sg + '|after=' + kind, '%s opened after primer activity "%s" in a fresh process: %s' % (rel, kind, w), case)
+            for sg, w in out['viol']]
+
+
 # ------------------------------------------------------------------------------------------ check interface
 
 def representatives(shape):
@@ -876,9 +985,17 @@ def pair_units(tier, shape):
     return [('pair', a, b) for a in files for b in files]
 
 
+def primed_units(tier, shape, ragged):
+    """quick: the files with tables whose rows do not all print the same number of values (blank trailing cells)
+    and the representatives; thorough: every file.  Each x every primer, each in a fresh process."""
+    files = sorted(shape) if tier != 'quick' else sorted(set(ragged) | set(representatives(shape)))
+    return [('primed', rel, kind) for rel in files for kind in PRIMERS]
+
+
 def units(tier):
     us = []
     shape = {}
+    ragged = []
     for rel, size in listing_files():
         us.append(('base', rel))
         sets = listtok.scan(listtok.read_lines(os.path.join(listing_root(), rel)))
@@ -888,6 +1005,8 @@ def units(tier):
             for t in rs.tables:
                 ncol[t.name] = max([ncol.get(t.name, 0)] + [len(r.toks) for r in t.rows])
                 widths.setdefault(t.name, set()).update(len(r.toks) for r in t.rows)
+        if any(len(w) > 1 for w in widths.values()):
+            ragged.append(rel)
         for name in ncol:
             # quick: the small files completely; of the large files only the tables whose rows do not all print
             # the same number of values (the tables in which 'blank trailing cells read as zero' is at stake)
@@ -895,7 +1014,7 @@ def units(tier):
                 continue
             for col in range(ncol[name]):
                 us.append(('pert', rel, name, col))
-    return us + pair_units(tier, shape)
+    return us + pair_units(tier, shape) + primed_units(tier, shape, ragged)
 
 
 def scopes_of(tier, ctx):
@@ -908,6 +1027,10 @@ def scopes_of(tier, ctx):
 def run_unit(unit, tier, rec):
     core.load_library()
     kind, rel = unit[0], unit[1]
+    if kind == 'primed':
+        for s, w, c in check_primed(rel, unit[2], rec):
+            rec.violation(s, w, c)
+        return
     ctx = Ctx(rel)
     if kind == 'pair':
         other = ctx if unit[2] == rel else Ctx(unit[2])
@@ -956,6 +1079,8 @@ def run_unit(unit, tier, rec):
 
 def replay(case):
     core.load_library()
+    if case['kind'] == 'primed':
+        return [(s, w) for s, w, c in check_primed(case['file'], case['primer'], None)]
     ctx = Ctx(case['file'])
     if case['kind'] == 'pair':
         other = ctx if case['other'] == case['file'] else Ctx(case['other'])
